@@ -44,6 +44,7 @@ let handle (line : string) : string =
         | 'c' -> NChild (bytes_of_hex (String.sub w 1 (String.length w - 1)))
         | 'w' -> NWild (w = "w*")
         | 'd' -> NDescent
+        | 'l' -> NSlice (List.map z_of_string (List.filter (fun x -> x <> "") (String.split_on_char ',' (String.sub w 1 (String.length w - 1)))))
         | 'u' ->
             let mem m = if m.[0] = 's' then Inl (bytes_of_hex (String.sub m 1 (String.length m - 1)))
                         else Inr (z_of_string (String.sub m 1 (String.length m - 1))) in
